@@ -6,6 +6,7 @@ import (
 	"fmt"
 	"strconv"
 	"strings"
+	"sync"
 	"time"
 
 	"github.com/matrix-org/gomatrixserverlib/spec"
@@ -37,6 +38,7 @@ func c09Verdict(err error) string {
 }
 
 func c09Check(ctx *vfCtx, c c09Case) {
+	c09PanelInit(ctx)
 	var rooms [][]PDU
 	var roomTrees [][]jv
 	for _, r := range c.Rooms {
@@ -196,6 +198,23 @@ func c09Check(ctx *vfCtx, c c09Case) {
 			break
 		}
 	}
+	// other evaluations in between: events whose contents are refused or undecodable (power levels
+	// with null / string / fractional levels, a join rule that is not a string, unknown create
+	// content) are judged against the same state, then the event once more - the verdict is a
+	// function of the event and its state, not of what the process looked at before
+	if c09Perturb(ctx, c.Version, finalTree, full) {
+		ctx.Class("perturbed-between-evaluations")
+		if v, ok := eval("after-other-evaluations", neededOnly); ok && v != base {
+			ctx.Fail("C09/verdict-changed-by-other-evaluations", "the verdict was %s; after power-levels / join-rules events with odd contents were judged against the same state it is %s; event=%s", base, v, c.Final.Event)
+			return
+		}
+	}
+	// the sentinel panel: fixed (event, state) pairs of every room version whose verdicts were taken
+	// when this process had judged nothing yet; judged again now, they must still be the same
+	if sig, msg := c09PanelRecheck(ctx, c.Version); sig != "" {
+		ctx.Fail(sig, "%s", msg)
+		return
+	}
 	// insertion order
 	for i := 0; i < 3; i++ {
 		if v, ok := eval("permuted", c11Shuffle(ch, full)); ok && v != base {
@@ -341,6 +360,42 @@ func c09Check(ctx *vfCtx, c c09Case) {
 		if ok1 && ok2 && vFull != vSel {
 			ctx.Fail("C09/add-auth-events-insufficient", "event built with AddAuthEvents is %s against the full state but %s against exactly its auth_events %v; event=%s", vFull, vSel, built.AuthEventIDs(), built.JSON())
 		}
+		// the same selection from a provider one of whose lookups fails (a database-backed provider):
+		// either the failure is reported or the selection is the complete one
+		for failAt := 1; failAt <= 6; failAt++ {
+			fp := &c09FailingProvider{failAt: failAt}
+			eb3 := impl.NewEventBuilderFromProtoEvent(pe)
+			var ferr error
+			var built3 PDU
+			if vfCatch(ctx, "C09/build-failing-provider", func() {
+				fp.inner, _ = NewAuthEvents(full)
+				if ferr = eb3.AddAuthEvents(fp); ferr != nil {
+					return
+				}
+				_, priv := vfKeyFor("origin:x")
+				built3, ferr = eb3.Build(time.UnixMilli(5000), "a.example", "ed25519:1", priv)
+			}) {
+				return
+			}
+			if !fp.failed {
+				break // fewer lookups than failAt
+			}
+			if ferr != nil || built3 == nil {
+				ctx.Class("failing-provider/reported")
+				continue
+			}
+			ctx.Class("failing-provider/not-reported")
+			got := map[string]bool{}
+			for _, id := range built3.AuthEventIDs() {
+				got[id] = true
+			}
+			for id := range refs {
+				if !got[id] {
+					ctx.Fail("C09/add-auth-events-insufficient/failed-lookup-not-reported", "lookup number %d of the provider failed; AddAuthEvents reported nothing and selected %v, without %s which the working provider yields", failAt, built3.AuthEventIDs(), id)
+					return
+				}
+			}
+		}
 		// the same selection from a provider that does NOT hold the create event (a caller that knows
 		// the create event by the room ID, as in the room versions whose room ID IS that event's ID):
 		// every needed event the provider holds is still named
@@ -384,6 +439,201 @@ func c09Check(ctx *vfCtx, c c09Case) {
 			}
 		}
 	}
+}
+
+// The sentinel panel: for every room version a few (event, state) pairs whose verdict hangs on the
+// power levels, the join rules and the memberships. Their verdicts are taken once, before this
+// process has judged any generated case, and taken again after every case (for the case's version):
+// a verdict is a function of the event and its state, whatever the process has looked at since.
+type c09PanelEntry struct {
+	version string
+	what    string
+	ev      PDU
+	state   []PDU
+	verdict string
+}
+
+var (
+	c09PanelOnce sync.Once
+	c09Panel     []*c09PanelEntry
+)
+
+func c09PanelEval(ctx *vfCtx, e *c09PanelEntry) (string, bool) {
+	var err error
+	if vfCatch(ctx, "C09/panel", func() {
+		var prov *AuthEvents
+		prov, err = NewAuthEvents(e.state)
+		if err == nil {
+			err = Allowed(e.ev, prov, vfUserIDForSender)
+		}
+	}) {
+		return "", false
+	}
+	return c09Verdict(err), true
+}
+
+func c09PanelInit(ctx *vfCtx) {
+	c09PanelOnce.Do(func() {
+		for _, version := range vfVersions {
+			var cases []c07Case
+			var what []string
+			for _, kind := range []string{"topic", "message", "join_rules", "custom-at-self"} {
+				for _, lvl := range []int64{49, 50} {
+					cases = append(cases, c07GenericCase(version, kind, "join", lvl, "", c07Alice, true, 50))
+					what = append(what, fmt.Sprintf("%s by a member at level %d of 50", kind, lvl))
+				}
+			}
+			cases = append(cases, c07GenericCase(version, "topic", "leave", 50, "", c07Alice, true, 50))
+			what = append(what, "topic by a user who left")
+			for i, c := range cases {
+				ev, err := evTree(c.Event)
+				if err != nil {
+					continue
+				}
+				p, err := raParsePDU(version, ev)
+				if err != nil {
+					continue
+				}
+				var state []PDU
+				ok := true
+				for _, a := range c.Auth {
+					t, err := evTree(a)
+					if err != nil {
+						ok = false
+						break
+					}
+					sp, err := raParsePDU(version, t)
+					if err != nil {
+						ok = false
+						break
+					}
+					state = append(state, sp)
+				}
+				if !ok {
+					continue
+				}
+				e := &c09PanelEntry{version: version, what: what[i], ev: p, state: state}
+				if v, ok := c09PanelEval(ctx, e); ok {
+					e.verdict = v
+					c09Panel = append(c09Panel, e)
+				}
+			}
+		}
+	})
+}
+
+func c09PanelRecheck(ctx *vfCtx, version string) (string, string) {
+	n := 0
+	for _, e := range c09Panel {
+		if e.version != version {
+			continue
+		}
+		n++
+		if v, ok := c09PanelEval(ctx, e); ok && v != e.verdict {
+			return "C09/verdict-depends-on-earlier-evaluations", fmt.Sprintf("room version %s, %s: the verdict was %s when the process started and is %s now, for the same event and the same state; event=%s",
+				version, e.what, e.verdict, v, e.ev.JSON())
+		}
+	}
+	if n > 0 {
+		ctx.Class("sentinel-panel-rechecked")
+	}
+	return "", ""
+}
+
+// c09FailingProvider answers like inner, except that its failAt-th lookup fails.
+type c09FailingProvider struct {
+	inner  *AuthEvents
+	failAt int
+	n      int
+	failed bool
+}
+
+func (p *c09FailingProvider) tick() error {
+	p.n++
+	if p.n == p.failAt {
+		p.failed = true
+		return fmt.Errorf("c09: lookup %d failed", p.n)
+	}
+	return nil
+}
+func (p *c09FailingProvider) Create() (PDU, error) {
+	if err := p.tick(); err != nil {
+		return nil, err
+	}
+	return p.inner.Create()
+}
+func (p *c09FailingProvider) JoinRules() (PDU, error) {
+	if err := p.tick(); err != nil {
+		return nil, err
+	}
+	return p.inner.JoinRules()
+}
+func (p *c09FailingProvider) PowerLevels() (PDU, error) {
+	if err := p.tick(); err != nil {
+		return nil, err
+	}
+	return p.inner.PowerLevels()
+}
+func (p *c09FailingProvider) Member(k spec.SenderID) (PDU, error) {
+	if err := p.tick(); err != nil {
+		return nil, err
+	}
+	return p.inner.Member(k)
+}
+func (p *c09FailingProvider) ThirdPartyInvite(k string) (PDU, error) {
+	if err := p.tick(); err != nil {
+		return nil, err
+	}
+	return p.inner.ThirdPartyInvite(k)
+}
+func (p *c09FailingProvider) Valid() bool { return p.inner.Valid() }
+
+// c09Perturb judges a few events with odd contents (refused or undecodable for the rules) against
+// the state; the verdicts are ignored. It reports whether anything was evaluated.
+func c09Perturb(ctx *vfCtx, version string, like jv, state []PDU) bool {
+	did := false
+	for _, odd := range []struct{ typ, content string }{
+		// one oddity per content, so that each is what the parser stops at
+		{"m.room.power_levels", `{"users":{"@odd:a.example":null}}`},
+		{"m.room.power_levels", `{"events":{"org.example.odd":null}}`},
+		{"m.room.power_levels", `{"notifications":{"room":null}}`},
+		{"m.room.power_levels", `{"ban":null}`},
+		{"m.room.power_levels", `{"users":{"@odd:a.example":1.5}}`},
+		{"m.room.power_levels", `{"users_default":"abc"}`},
+		{"m.room.power_levels", `{"users":{"@odd:a.example":"100"},"events":{"org.example.odd":"7"},"users_default":"50","invite":1.5}`},
+		{"m.room.power_levels", `{"users":[],"events":7}`},
+		{"m.room.join_rules", `{"join_rule":7,"allow":"x"}`},
+		{"m.room.member", `{"membership":null}`},
+	} {
+		ct, _, err := jparse([]byte(odd.content))
+		if err != nil {
+			continue
+		}
+		ev := like.without("event_id", "hashes", "signatures", "unsigned", "redacts").with("type", jstr(odd.typ)).with("content", ct)
+		if odd.typ == "m.room.member" {
+			ev = ev.with("state_key", jstr(evStr(like, "sender")))
+		} else {
+			ev = ev.with("state_key", jstr(""))
+		}
+		if vtraits[version].IDFormat == 1 {
+			ev = ev.with("event_id", jstr("$c09odd:a.example"))
+		}
+		p, err := raParsePDU(version, ev)
+		if err != nil {
+			continue
+		}
+		if vfCatch(ctx, "C09/perturb", func() {
+			prov, perr := NewAuthEvents(state)
+			if perr == nil {
+				_ = Allowed(p, prov, vfUserIDForSender)
+			}
+			_, _ = NewPowerLevelContentFromEvent(p)
+		}) {
+			return did
+		}
+		did = true
+	}
+	return did
 }
 
 // c09GenEvent draws an event for the room (JSON tree), mostly membership events.
